@@ -1,6 +1,6 @@
 import UvModel.Lemmas.LoopTrace
 import UvModel.Lemmas.LoopRunInv
-import UvModel.Lemmas.LoopClose3
+import UvModel.Lemmas.LoopClose4
 /-!
   C02 — close protocol, over the LoopModel.  `tr s = (s.trace, s.ncbTotal)`: the event trace
   (callbacks, polls, op results) and the number of callbacks run so far.
@@ -140,10 +140,70 @@ example :
     s0.closing = [4, 2] ∧ s1.closing = [3] ∧ (closeCbs 2 s1.trace, closeCbs 3 s1.trace, closeCbs 4 s1.trace) = (1, 0, 1) ∧
     (closeCbs 2 s2.trace, closeCbs 3 s2.trace, closeCbs 4 s2.trace) = (1, 1, 1) ∧ s2.closing = [] := by decide
 
+/-- the statement as first written: no invariant among the hypotheses -/
 def reqs_before_close_cb_statement : Prop :=
   ∀ (sc : Script) (s : State) (id r : Nat), id ∈ s.closing → ({ id := r, kind := .udpSend id } : Req) ∈ s.reqs →
     ∃ pre post a b st, (runClosing sc s).trace = post ++ [Event.cb .closing .close id a b] ++ pre ∧
       Event.cb .closing .udpSend r st 0 ∈ pre
+
+/-- … is false of the model for ill-formed states (a queued id without record: nothing is delivered at all) -/
+theorem reqs_before_close_cb_statement_false : ¬ reqs_before_close_cb_statement := by
+  intro h
+  obtain ⟨pre, post, a, b, st, h1, _⟩ :=
+    h (fun _ _ _ => []) { closing := [5], reqs := [⟨0, .udpSend 5⟩] } 5 0 (by simp) (by simp)
+  have h0 : (runClosing (fun _ _ _ => []) ({ closing := [5], reqs := [⟨0, .udpSend 5⟩] } : State)).trace = [] := rfl
+  rw [h0] at h1
+  simp at h1
+
+/-- `reqs_before_close_cb`: in every state satisfying `CloseWF` (every reachable state), for a handle `id` queued in
+    `closing_handles` whose record is `h`, the trace of the closing phase is `post ++ mid ++ pre ++ old` where the
+    callback events of the contiguous segment `mid` are, oldest first, exactly
+    `attachedReqs h ++ [close_cb id]`: one callback per request attached to the record *at the start of the phase*
+    (udp: completed sends with their own status, then still-queued sends with UV_ECANCELED = -125; stream: the
+    pending connect with UV_ECANCELED), each before the close callback, nothing else in between — for every
+    script: neither the closing of other handles in the same phase nor anything their callbacks do can touch the
+    queues of a handle that carries UV_HANDLE_CLOSING (`closing_handle_frozen`). -/
+theorem reqs_before_close_cb (sc : Script) (s : State) (id : Nat) (h : Handle) (hw : CloseWF s) (hh : s.halted = false)
+    (hid : id ∈ s.closing) (hg : getH s id = some h) :
+    ∃ pre mid post fb, (runClosing sc s).trace = post ++ mid ++ pre ++ s.trace ∧
+      cbsOf mid = attachedReqs h ++ [(CbKind.close, id, fb)] :=
+  runClosing_reqs sc id s h hw hh hid hg
+
+/-- the same for one `uv__finish_close`: its whole contribution to the trace is the attached requests' callbacks
+    followed by the close callback -/
+theorem reqs_before_close_cb_step (sc : Script) (s : State) (id : Nat) (rest : List Nat) (h : Handle) (hw : CloseWF s)
+    (hl : s.closingLocal = id :: rest) (hh : s.halted = false) (hg : getH s id = some h) :
+    ∃ new fb, (finishClose sc id { s with closingLocal := rest }).trace = new ++ s.trace ∧
+      cbsOf new = attachedReqs h ++ [(CbKind.close, id, fb)] := by
+  have hw1 : CloseWF' (some id) { s with closingLocal := rest } := by
+    have hl' : clList (some id) { s with closingLocal := rest } = clList none s := by simp [clList, hl]
+    exact ⟨hl' ▸ hw.1, fun i hi => hw.2 i (hl' ▸ hi)⟩
+  obtain ⟨fb, new, e, c⟩ := finishClose_reqs sc id _ h hw1 hh hg
+  exact ⟨new, fb, e, c⟩
+
+/-- no API call and no callback changes the kind, `write_queue`, `write_completed_queue` or `connect_req` of a
+    handle that carries UV_HANDLE_CLOSING (`uv_udp_send`, `uv_pipe_connect`, … on it are outside `Legal`), nor
+    removes its record or clears the flag -/
+theorem closing_handle_frozen (s : State) (id : Nat) (f : HFlags) (hm : (getH s id).isSome) (hf : getF s id = some f)
+    (hc : f.closing = true) :
+    (∀ o, hq (stepOp s o) id = hq s id ∧ (getH (stepOp s o) id).isSome) ∧
+    (∀ sc ph k key i a b occ, hq (runCb sc ph k key i a b occ s) id = hq s id ∧
+      (getH (runCb sc ph k key i a b occ s) id).isSome) := by
+  have hz : Frz id s := ⟨(getH_isSome_iff s id).mp hm, f, hf, hc⟩
+  refine ⟨fun o => ?_, fun sc ph k key i a b occ => ?_⟩
+  · obtain ⟨z, q, _⟩ := FrzRel.stepOp id s o hz
+    exact ⟨q, (getH_isSome_iff _ id).mpr z.1⟩
+  · obtain ⟨z, q, _⟩ := FrzRel.runCb id sc ph k key i a b occ s hz
+    exact ⟨q, (getH_isSome_iff _ id).mpr z.1⟩
+
+/-- a udp handle with one transmitted and one queued send, closed together with an idle handle whose close callback
+    tries to send on the udp handle (illegal: ignored) — the segment is as predicted from the record at phase start -/
+example :
+    let s0 := ([Op.init .udp, .init .idle, .udpSend 2, .udpSend 2, .close 2, .close 3].foldl stepOp (initLoop 0 false []))
+    let sc : Script := fun key _ _ => if key = .c 3 then [.udpSend 2, .close 2] else []
+    s0.closing = [3, 2] ∧ (getH s0 2).map attachedReqs = some [(CbKind.udpSend, 0, 0), (CbKind.udpSend, 1, -125)] ∧
+    cbsOf ((runClosing sc s0).trace.take ((runClosing sc s0).trace.length - s0.trace.length)) =
+      [(CbKind.close, 3, 4), (CbKind.udpSend, 0, 0), (CbKind.udpSend, 1, -125), (CbKind.close, 2, 4)] := by decide
 
 /-- the statement as first written: "no event carries the id of a handle whose flags record is gone" -/
 def silence_after_close_cb_statement : Prop :=
